@@ -6,6 +6,7 @@
    props/c14.py. *)
 From Coq Require Import List Reals.
 From ML Require Import Ops Vec VecR MatR LinAlg MMC C14Proof.
+From ML Require Import PinsC14.
 Import ListNotations.
 Open Scope R_scope.
 
@@ -32,3 +33,7 @@ Print Assumptions C14_partial.
 (* Not mechanised: that `satisfy` means relative budget violation < 1% (it is the code's test
    (w.A - t)/t < 0.01, re-evaluated on exact rationals per run), and the NaN -> ValueError clause of the
    diagonal variant (explored). *)
+
+(* text-level tie: the functions this property's hand-written model and harness were written from are unchanged
+   (digests regenerated from /repo on every run; Proofs/PinsC14.v) *)
+Definition C14_source_pins := pins_C14_ok.
